@@ -86,12 +86,200 @@ func c19CSVStrict(c *Ctx) {
 			}
 			n++
 			f := fieldOf(fa.X.Type(), fa.Field)
-			c.r.bad(rule, safeFname(fn)+": csv.Reader."+f.Name(), "the CSV reader's "+f.Name()+" option is changed: with the defaults ragged records and bare quotes are errors and field contents are preserved exactly", []string{c.w.ipos(i)})
+			key := safeFname(fn) + ": csv.Reader." + f.Name()
+			// an assignment of the option's default value changes nothing
+			if k, ok := st.Val.(*ssa.Const); ok {
+				def := false
+				switch f.Name() {
+				case "Comma":
+					v, isInt := constInt(k)
+					def = isInt && v == ','
+				default: // Comment 0, FieldsPerRecord 0, LazyQuotes/TrimLeadingSpace/ReuseRecord false
+					if v, isInt := constInt(k); isInt {
+						def = v == 0
+					} else if k.Value != nil && k.Value.Kind() == constant.Bool {
+						def = !constant.BoolVal(k.Value)
+					}
+				}
+				if def {
+					c.r.ok(rule, key, "assigned its default value")
+					return
+				}
+			}
+			// the field delimiter may be the user's choice (a command line option) as long as the option's default is ','
+			if f.Name() == "Comma" {
+				if why, good, decided := c19CommaFromOption(c, st.Val); decided {
+					c.r.check(good, rule, key, "the delimiter is a command line option whose default is ',' ("+why+"); how the option's text becomes the rune is not analysed",
+						"the field delimiter comes from a command line option whose default is not ',' ("+why+"): without that option the command no longer reads comma separated files as before", c.w.ipos(i))
+					return
+				}
+			}
+			c.r.bad(rule, key, "the CSV reader's "+f.Name()+" option is changed: with the defaults ragged records and bare quotes are errors and field contents are preserved exactly", []string{c.w.ipos(i)})
 		})
 	}
 	if n == 0 {
 		c.r.ok(rule, "csv.Reader options", "no option of the CSV reader is assigned anywhere in the command")
 	}
+}
+
+// c19CommaFromOption decides where a non-constant csv delimiter comes from: every data source of the value (followed
+// backwards through conversions, phis, calls of module functions and their results) must be a constant or a string field
+// of a configuration struct of the command that is bound to a flag (pflag StringVar/StringVarP/…) — and those flags must
+// have the default "," (or "", which the command has to map to the default itself; a Comma of 0 makes every read fail,
+// which the existing tests see). decided is false when some source is something else (e.g. derived from the input file's
+// contents: delimiter sniffing changes how well-formed comma separated files are read).
+func c19CommaFromOption(c *Ctx, v ssa.Value) (why string, good, decided bool) {
+	fields := map[*types.Var]bool{}
+	seen := map[ssa.Value]bool{}
+	okAll := true
+	var walk func(v ssa.Value, depth int)
+	walk = func(v ssa.Value, depth int) {
+		if seen[v] || !okAll {
+			return
+		}
+		seen[v] = true
+		if depth > 6 {
+			okAll = false
+			return
+		}
+		switch x := v.(type) {
+		case *ssa.Const:
+		case *ssa.Convert:
+			walk(x.X, depth)
+		case *ssa.ChangeType:
+			walk(x.X, depth)
+		case *ssa.Phi:
+			for _, e := range x.Edges {
+				walk(e, depth)
+			}
+		case *ssa.Extract:
+			walk(x.Tuple, depth)
+		case *ssa.UnOp:
+			if x.Op != token.MUL {
+				walk(x.X, depth)
+				return
+			}
+			if fa, ok := x.X.(*ssa.FieldAddr); ok {
+				if f := fieldOf(fa.X.Type(), fa.Field); f.Pkg() != nil && c.w.Pkgs[f.Pkg().Path()] != nil {
+					fields[f] = true
+					return
+				}
+			}
+			okAll = false
+		case *ssa.BinOp:
+			walk(x.X, depth)
+			walk(x.Y, depth)
+		case *ssa.Lookup:
+			walk(x.X, depth)
+			walk(x.Index, depth)
+		case *ssa.Call:
+			callee := x.Call.StaticCallee()
+			if callee == nil {
+				okAll = false
+				return
+			}
+			if c.w.inModule(callee) && callee.Blocks != nil {
+				// the helper's results: every returned value of the same result position (all of them, to stay simple)
+				allInstrs(callee, func(i ssa.Instruction) {
+					if r, ok := i.(*ssa.Return); ok {
+						for _, rv := range r.Results {
+							if _, isErr := rv.Type().Underlying().(*types.Interface); !isErr {
+								walk(rv, depth+1)
+							}
+						}
+					}
+				})
+				return
+			}
+			// pure library decoding of a string (utf8.DecodeRuneInString, strings.*, []rune conversion helpers)
+			switch c.w.pkgPathOf(callee) {
+			case "unicode/utf8", "strings", "unicode", "strconv":
+				for _, a := range x.Call.Args {
+					walk(a, depth)
+				}
+			default:
+				okAll = false
+			}
+		case *ssa.Parameter:
+			fn := x.Parent()
+			idx := -1
+			for k, p := range fn.Params {
+				if p == x {
+					idx = k
+				}
+			}
+			callers := 0
+			if node := c.w.CG.Nodes[fn]; node != nil {
+				for _, e := range node.In {
+					if e.Site == nil || e.Site.Common().IsInvoke() || e.Site.Common().StaticCallee() != fn || idx < 0 || idx >= len(e.Site.Common().Args) {
+						okAll = false
+						continue
+					}
+					callers++
+					walk(e.Site.Common().Args[idx], depth+1)
+				}
+			}
+			if callers == 0 {
+				okAll = false
+			}
+		default:
+			okAll = false
+		}
+	}
+	walk(v, 0)
+	if !okAll || len(fields) == 0 {
+		return "", false, false
+	}
+	// the flags bound to those fields and their defaults
+	var descr []string
+	good = true
+	for f := range fields {
+		found := false
+		for _, fn := range c.w.ModFuncs {
+			if c.w.pkgPathOf(fn) != pkgCmd {
+				continue
+			}
+			allInstrs(fn, func(i ssa.Instruction) {
+				call, ok := i.(*ssa.Call)
+				if !ok {
+					return
+				}
+				args := call.Call.Args
+				for k, a := range args {
+					fa, ok := a.(*ssa.FieldAddr)
+					if !ok || fieldOf(fa.X.Type(), fa.Field) != f {
+						continue
+					}
+					// (p *string, name string, [shorthand string,] value string, usage string)
+					var strs []string
+					for _, b := range args[k+1:] {
+						if s, ok := constString(b); ok {
+							strs = append(strs, s)
+						} else {
+							strs = append(strs, "\x00non-constant")
+						}
+					}
+					di := 1
+					if strings.HasSuffix(calleeName(&call.Call), "P") {
+						di = 2
+					}
+					if len(strs) <= di {
+						continue
+					}
+					found = true
+					descr = append(descr, fmt.Sprintf("--%s default %q", strs[0], strs[di]))
+					if strs[di] != "," && strs[di] != "" {
+						good = false
+					}
+				}
+			})
+		}
+		if !found {
+			return "", false, false
+		}
+	}
+	sort.Strings(descr)
+	return strings.Join(descr, ", "), good, true
 }
 
 // c19Records follows the csv records of the create command from the Read call sites to AddRow. The reading may live in
